@@ -36,3 +36,26 @@ Proof.
   intros Hk Hx. destruct (split_high x k Hk Hx) as [E R].
   rewrite E at 1. rewrite Z.lxor_assoc, Z.lxor_nilpotent, Z.lxor_0_r. reflexivity.
 Qed.
+
+(** a single-bit mask extracts that bit *)
+Lemma land_pow2_bit a n : 0 <= n -> Z.land a (2 ^ n) = Z.b2z (Z.testbit a n) * 2 ^ n.
+Proof.
+  intros Hn. apply Z.bits_inj'. intros m Hm.
+  rewrite Z.land_spec, Z.pow2_bits_eqb by lia.
+  destruct (Z.eqb_spec n m) as [<-|Hne].
+  - rewrite andb_true_r. rewrite Z.mul_pow2_bits by lia. rewrite Z.sub_diag. symmetry. apply Z.b2z_bit0.
+  - rewrite andb_false_r. symmetry. destruct (Z.ltb_spec m n) as [Lt|Ge].
+    + apply Z.mul_pow2_bits_low. lia.
+    + rewrite Z.mul_pow2_bits by lia. destruct (Z.testbit a n); cbn [Z.b2z].
+      * apply Z.bits_above_log2; [lia|]. cbn. lia.
+      * apply Z.bits_0.
+Qed.
+
+Lemma land_2 a : 0 <= a -> Z.land a 2 = 2 * ((a / 2) mod 2).
+Proof.
+  intros Ha. change 2 with (2 ^ 1) at 1. rewrite land_pow2_bit by lia.
+  rewrite Z.testbit_spec' by lia. change (2 ^ 1) with 2. lia.
+Qed.
+
+Lemma land_3 a : Z.land a 3 = a mod 4.
+Proof. change 3 with (Z.ones 2). rewrite Z.land_ones by lia. reflexivity. Qed.
